@@ -76,6 +76,7 @@ def _shard(ctx, shard, nshards):
 
 
 def run(ctx):
+    native.setup()       # translate + compile once, before the shard processes fork
     n = 16
     ctx.shards(_shard, n, n)
     return RULE, 'exploration', [
